@@ -51,7 +51,9 @@ chk.assumptions = [
     'periodic array, linear field: u = sign(y) (1/4 - x/(2 L_m)) b about the centre (docstring: long-range linear limit); '
     'elastic field in the middle is accepted up to one common rigid shift along the slip-plane normal',
     'disregistry tail bound 2*(2/pi)*atan(h/x_end) (isotropic screw deficit is (2/pi)*atan(h/(2 x_end)); factor 4 covers '
-    'edge terms and anisotropy), columns outside the common x-range of the two planes are not compared (clamped extrapolation)',
+    'edge terms and anisotropy), columns outside the common x-range of the two planes are not compared (clamped extrapolation); '
+    'x_end is the signed distance from the core to the nearer end of the compared range and the accumulation is judged only for '
+    'x_end > h (otherwise the bound is >= 1 and vacuous)',
     'a "Deleted atom mismatch" refusal is accepted only when the predicted duplicate misfit |b| b_e/(2 L_m) exceeds the cutoff',
     'periodic array: the returned base_system is compared with the untrimmed crystal modulo the three periods of the (fully '
     'periodic) reference box; displacements are judged from the returned reference positions',
@@ -781,7 +783,8 @@ def judge_disreg(g, base, disl, uexp, cabs, tag):
     bhat = g['b'] / g['bmag']
     par = (delta @ bhat) / g['bmag']
     perp = np.linalg.norm(delta - (delta @ bhat) * bhat) / g['bmag']
-    xend = min(abs(cx[0] - cabs @ g['mh']), abs(cx[-1] - cabs @ g['mh']))
+    # signed: distance from the core to the nearer end of the compared column range, negative when the core is outside it
+    xend = min(cabs @ g['mh'] - cx[0], cx[-1] - cabs @ g['mh'])
     return fails, dict(par=par, perp=perp, xend=xend, h=h, span=cx[-1] - cx[0])
 
 
@@ -825,7 +828,13 @@ def disreg(case):
         if f or st is None:
             return fails
         stats.append(st)
-        bound = 2 * (2 / np.pi) * np.arctan(st['h'] / st['xend'])
+        # the tail bound presumes the core inside the compared range; within one plane spacing of its end (or outside it)
+        # the bound is >= 1, i.e. says nothing: the accumulation is then not judged (the column-by-column profile above is)
+        judged = st['xend'] > st['h']
+        st['judged'] = judged
+        bound = 2 * (2 / np.pi) * np.arctan(st['h'] / st['xend']) if judged else np.inf
+        if not judged and kind != 'array-linear':
+            chk.note('accumulation-not-judged-core-at-range-end')
         if kind == 'array-linear':
             # exactly linear: one Burgers vector per period L
             L = abs(smult[g['moi']] * np.array(d.rcell.box.vects)[g['moi']] @ g['mh'])
@@ -836,7 +845,7 @@ def disreg(case):
             if abs(abs(st['par']) - 1) > bound or st['perp'] > bound:
                 fails.append(Fail(key=kind + '-accumulation', msg='end-to-end disregistry is not one Burgers vector within the tail bound',
                                   parallel=st['par'], perpendicular=st['perp'], bound=bound, x_end=st['xend'], h=st['h']))
-    if not fails and kind != 'array-linear':
+    if not fails and kind != 'array-linear' and all(x['xend'] > 0 for x in stats):     # core inside both compared ranges
         d1, d2 = abs(abs(stats[0]['par']) - 1), abs(abs(stats[1]['par']) - 1)
         chk.note('deficit-pairs')
         if not d2 < d1:
